@@ -51,6 +51,10 @@ def monitor(ctx, spec, out):
             prev[who] = s
 
 
+def pre_build(ctx):
+    core_units.pre_build_tracker(ctx)
+
+
 def run(ctx):
     core_units.run(ctx, which="C19")
     ctx.monitor_rule = ("after every step, for the optimizer and each population member / grid back-end: the tracked current and best "
